@@ -47,6 +47,7 @@ MAX_DEPTH = 4
 
 Loc = Tuple[str, tuple]
 
+PIECEWISE = "PIECEWISE"   # comprehension whose elements are tuple displays (see elem_of)
 EMPTYQ = "EMPTY"      # qualifier of an empty container literal: neutral for set-level qualifiers
 
 
@@ -252,7 +253,11 @@ def elem_of(a: AV) -> AV:
     else:
         e = TOP
     alias = frozenset(loc_ext(l, "[]") for l in a.alias) | e.alias
-    quals = frozenset(("ELEM_OF", q) for q in a.quals if q != EMPTYQ) | e.quals
+    quals = frozenset(("ELEM_OF", q) for q in a.quals if q not in (EMPTYQ, PIECEWISE)) | e.quals
+    if PIECEWISE in a.quals and e.items is not None:
+        # a comprehension of tuple displays: each piece of an element has the provenance of the expression that made it;
+        # which pieces exist is a control dependence (the loop over the container adds the container's deps to ctrl)
+        return replace(e, alias=alias, quals=quals)
     return replace(e, alias=alias, deps=e.deps | a.deps, quals=quals)
 
 
